@@ -124,6 +124,12 @@ structure Facts where
   nilChain : Bool
   deriving DecidableEq, Repr
 
+instance [DecidableEq ε] [DecidableEq α] : DecidableEq (Except ε α)
+  | .ok a, .ok b => if h : a = b then isTrue (by rw [h]) else isFalse (by intro h'; cases h'; exact h rfl)
+  | .error a, .error b => if h : a = b then isTrue (by rw [h]) else isFalse (by intro h'; cases h'; exact h rfl)
+  | .ok _, .error _ => isFalse (by intro h; cases h)
+  | .error _, .ok _ => isFalse (by intro h; cases h)
+
 /-! ### types -/
 
 def GoTy.isLeaf : GoTy → Bool
@@ -274,17 +280,18 @@ def place (J : JLayer) (target : GoTy) (v : GoVal) : Except Err GoVal :=
 def decBasic (ctx : Ctx) (J : JLayer) (F : Facts) (pn ne : Nat) (ty js : String) : Except Err GoVal := do
   let t ← tyOfKeyE ctx ty
   let pn := if F.ptrBasic then pn else 0
+  let ne := if F.nilChain then ne else 0
   if F.nilChain && pn > 0 && js == "null" then
     -- nil pointer at level `pn` whose pointee type has `ne` more pointer levels
     pure (wrap (pn - 1) (.nilptr (ptrN ne t)))
   else if js == "null" then
-    -- sonic.Unmarshal("null", reflect.New(ptr^pn t)): the outermost pointer is nil
-    match pn with
+    -- sonic.Unmarshal("null", reflect.New(ptr^(pn+ne) t)): the outermost pointer is nil
+    match pn + ne with
     | 0 => zeroOf J t
     | n + 1 => pure (.nilptr (ptrN n t))
   else if t.isLeaf then do
     let p ← J.decode t js
-    pure (wrap pn (.basic t p))
+    pure (wrap (pn + ne) (.basic t p))
   else .error .unmodelled
 
 /-- struct branch, after the children have been decoded: every entry must name a declared
